@@ -31,7 +31,12 @@ Route T (relocation of lost features): tools/py2coq_findlink.py re-translates th
 FindLinker.percentile_threshold / get_relocate_candidates / relocate ($TRACKPY_REPO/trackpy/linking/
 find_link.py) into coq/Gen/findlink.v on every run, before the cone of Properties/C14.v is
 rebuilt; Proofs/FindlinkGen.v proves the generated functions equal to Model/FindLink.relocate_cands /
-relocate / image_reloc and Properties/C14.v (14)-(19) restates the theorems for them.  A source that
+relocate / image_reloc and Properties/C14.v (14)-(19) restates the theorems for them.
+tools/py2coq_findstep.py does the same for the linking step: FindLinker.__init__ / next_level / assign_links,
+Subnets.include_lost / merge_lost_subnets / add_dest_points (subnet.py) and find_link_iter -> coq/Gen/findstep.v;
+Proofs/FindstepGen.v, FindstepGen2-4.v prove the generated functions equal to the model of the code
+(Model/FindLink3.v: only the claimed relocated points enter the frame; the driver hands the user's percentile
+to the linker) and Properties/C14.v (20)-(28) restates the safety theorems for them.  A source that
 leaves the translatable subset, or a generated function whose equality proof no longer checks, is
 reported through chk.proof_broken; harnesses (A)-(D) still run against the hand model, so that a
 concrete failing input is searched for as well.
@@ -45,6 +50,11 @@ from common import cnat, cZ, cQ, clist, cbool
 IMPORTS = "From TP Require Import Model.Assign Model.Link Model.Dilation Model.FindLink Model.FindLinkCheck."
 TRANSLATOR = os.path.join(common.VERIF, 'tools', 'py2coq_findlink.py')
 GEN = os.path.join(common.COQ, 'Gen', 'findlink.v')
+# route T, second translator: the linking step (FindLinker.__init__ / next_level / assign_links, the Subnets
+# lost-feature methods, find_link_iter) -> Gen/findstep.v
+TRANSLATOR2 = os.path.join(common.VERIF, 'tools', 'py2coq_findstep.py')
+GEN2 = os.path.join(common.COQ, 'Gen', 'findstep.v')
+PAIRS = [(TRANSLATOR, GEN), (TRANSLATOR2, GEN2)]
 CAND_FUNC = "fun c => match c with (P, im, t, pos, known, out) => check_cands_t P im t pos known out end"
 NC_FUNC = "fun c => match c with (P, im, t, pos, known, out) => n_cands P im t pos known end"
 CAND_CODES = {
@@ -691,22 +701,28 @@ def eval_movies(chk, movies, tag):
 # translator / build (route T)
 # ----------------------------------------------------------------------------
 def regenerate(chk):
-    """re-run the translator on the current source; returns (ok, text-or-log)"""
-    rc, out = common.sh([sys.executable, TRANSLATOR, '--repo', common.REPO, '--stdout'], timeout=60)
-    if rc != 0:
-        return False, out
+    """re-run the translators on the current source; returns (ok, {generated file: text}-or-log)"""
+    texts = {}
+    for tr, gen in PAIRS:
+        rc, out = common.sh([sys.executable, tr, '--repo', common.REPO, '--stdout'], timeout=60)
+        if rc != 0:
+            return False, '%s: %s' % (os.path.basename(tr), out)
+        texts[gen] = out
     with common.Lock(os.path.join(common.COQ, '.build.lock')):
-        old = open(GEN).read() if os.path.exists(GEN) else None
-        if old != out:
-            os.makedirs(os.path.dirname(GEN), exist_ok=True)
-            tmp = GEN + '.tmp%d' % os.getpid()
-            with open(tmp, 'w') as f:
-                f.write(out)
-            os.replace(tmp, GEN)
-            chk.tally('Gen/findlink.v rewritten (source differs from last run)')
-        else:
-            chk.tally('Gen/findlink.v unchanged')
-    return True, out
+        for tr, gen in PAIRS:
+            out = texts[gen]
+            name = 'Gen/' + os.path.basename(gen)
+            old = open(gen).read() if os.path.exists(gen) else None
+            if old != out:
+                os.makedirs(os.path.dirname(gen), exist_ok=True)
+                tmp = gen + '.tmp%d' % os.getpid()
+                with open(tmp, 'w') as f:
+                    f.write(out)
+                os.replace(tmp, gen)
+                chk.tally(name + ' rewritten (source differs from last run)')
+            else:
+                chk.tally(name + ' unchanged')
+    return True, texts
 
 
 def ensure_model(chk):
@@ -727,24 +743,26 @@ def build(chk):
     """translator -> cone of Properties/C14.v -> executable hand model"""
     ok, text = regenerate(chk)
     if not ok:
-        chk.proof_broken('translation tools/py2coq_findlink.py (FindLinker.percentile_threshold / get_relocate_candidates / relocate '
-                         'left the translatable subset)', text)
+        chk.proof_broken('translation tools/py2coq_findlink.py / py2coq_findstep.py (FindLinker.percentile_threshold / get_relocate_candidates / '
+                         'relocate / __init__ / next_level / assign_links, Subnets.include_lost / merge_lost_subnets / add_dest_points or '
+                         'find_link_iter left the translatable subset)', text)
         chk.build = dict(obligations=0, discharged=0, assumptions=[], files=[], theorems=[])
     else:
         b = None
         for attempt in range(3):
             b = chk.coq()
-            if open(GEN).read() == text:
+            if all(open(g).read() == t for g, t in text.items()):
                 break
             # another run (different TRACKPY_REPO) rewrote the generated file in between: redo
             chk.violations = [v for v in chk.violations if not v[0].startswith('proof:')]
             regenerate(chk)
-        chk.notes.append('Gen/findlink.v sha1 %s generated from %s' % (hashlib.sha1(text.encode()).hexdigest()[:12], common.REPO))
+        for g, t in text.items():
+            chk.notes.append('Gen/%s sha1 %s generated from %s' % (os.path.basename(g), hashlib.sha1(t.encode()).hexdigest()[:12], common.REPO))
         if b is not None and not b['ok']:
             # say which statement about the generated functions no longer checks
             with common.Lock(os.path.join(common.COQ, '.build.lock')):
-                rc, out = common.sh('timeout 600 make Proofs/FindlinkGen.vo 2>&1 | tail -25', timeout=630, cwd=common.COQ)
-            chk.notes.append('make Proofs/FindlinkGen.vo (generated functions = model): ' + out[-2500:])
+                rc, out = common.sh('timeout 900 make Proofs/FindlinkGen.vo Proofs/FindstepGen3.vo 2>&1 | tail -25', timeout=930, cwd=common.COQ)
+            chk.notes.append('make Proofs/FindlinkGen.vo Proofs/FindstepGen3.vo (generated functions = model): ' + out[-2500:])
     return ensure_model(chk)
 
 
@@ -789,7 +807,7 @@ def run(chk):
         "float mask tests (x/R)**2+(y/R)**2 <= 1 agree with the exact ones except on 5-12-13 lattice points (radii 13, 26, 39: kept out of the model comparison, counted)",
         "the subnet bookkeeping of assign_links (include_lost / merge_lost_subnets / add_dest_points, dict order) is tied to the model only through the monitor and the completeness runs, not by a step-wise comparison; the safety theorems hold for every grouping that partitions the sources",
         "preprocess=True: only the monitor (float masses) applies; the candidate model is compared on integer images",
-        "route T: Gen/findlink.v is produced from the current trackpy/linking/find_link.py by tools/py2coq_findlink.py (trusted, fail-closed; subset, conventions and the named numpy / scipy / trackpy primitives in the translator's docstring and Model/PyFindlink.v: masks.slice_image / mask_image, hash.query_points / to_eucl, ndimage.grey_dilation on the slice, find.drop_close (translation invariance assumed), feature.characterize's mass, np.argsort on distinct masses, np.percentile as a parameter); FindLinker.__init__, assign_links, next_level and Subnets.include_lost / merge_lost_subnets / add_dest_points are NOT translated",
+        "route T: Gen/findlink.v is produced from the current trackpy/linking/find_link.py by tools/py2coq_findlink.py (trusted, fail-closed; subset, conventions and the named numpy / scipy / trackpy primitives in the translator's docstring and Model/PyFindlink.v: masks.slice_image / mask_image, hash.query_points / to_eucl, ndimage.grey_dilation on the slice, find.drop_close (translation invariance assumed), feature.characterize's mass, np.argsort on distinct masses, np.percentile as a parameter); Gen/findstep.v is produced by tools/py2coq_findstep.py (trusted, fail-closed; Model/PyFindstep.v) from FindLinker.__init__ / next_level / assign_links, Subnets.include_lost / merge_lost_subnets / add_dest_points and find_link_iter: Subnets.__init__ (the components of the candidate graph), the KD-tree queries (all points within the range, hash order, no neighbour cap), the subnet linker, update_hash / apply_links, grey_dilation and characterize are named primitives; the order in which the subnet dictionary is visited is a parameter; after_link and anisotropic ranges are outside the modelled scope",
     ]
 
 
